@@ -11,7 +11,7 @@ RULE = ("seeded cases: 3-12 sources (multi-block and small files, links, FIFOs, 
         "existing directory pre-populated with entries of every kind (file, directory, FIFO, socket, link to an existing file, "
         "dangling link) at the mapped path of a random subset of the sources (first / middle / last position) plus unrelated "
         "entries; both drivers; schedules free / pct / walker-first / workers-first so the walker's existence check races with "
-        "active workers. Oracle: (a) every pre-existing destination entry has the same kind, inode, bytes, mode, mtime, ctime "
+        "active workers; combined with --backup {numbered, auto, auto with an existing backup}, --fsync, --no-perms, --no-timestamps, --ownership, --gitignore, --reflink, --no-progress. Oracle: (a) every pre-existing destination entry has the same kind, inode, bytes, mode, mtime, ctime "
         "(files), link text and device number afterwards; (b) if a source file, link or special node maps onto an existing entry "
         "(by lstat) the exit status is non-zero; (c) trace monitor: no mutating system call on a pre-existing destination inode "
         "or path. distinct_nontrivial = distinct (driver, kind of colliding source, kind of existing entry, position class, schedule)")
@@ -75,7 +75,23 @@ def gen_cases(tier, seed):
         sch = r.choice([{"sched": "free"}, {"sched": "pct", "sched_d": 2}, {"sched": "role", "role_order": "walker,dispatcher,copy,main,worker"},
                         {"sched": "role", "role_order": "worker,dispatcher,walker,copy,main"}, {"sched": "jitter", "jitter": [300, 2000]}])
         sch["sched_seed"] = r.randrange(1 << 30)
-        args = ["--driver", driver, "-w", str(r.choice([1, 2, 4, 8])), "--block-size", "16KB", "-n", "-r"] + names + ["dst"]
+        # no-clobber must hold whatever else is asked for
+        extra = []
+        bk = r.choice(["", "", "numbered", "auto", "auto-with-backup"])
+        if bk:
+            extra += ["--backup", bk.split("-")[0]]
+            if bk == "auto-with-backup":
+                for j, sk, ek in colls:
+                    if ek == "file":
+                        pre.append({"p": "dst/%s.~3~" % names[j], "k": "f", "size": 6, "seed": 12, "segs": None})
+        for o in ("--fsync", "--no-perms", "--no-timestamps", "--ownership", "--gitignore"):
+            if r.random() < 0.15:
+                extra.append(o)
+        if r.random() < 0.2:
+            extra += ["--reflink", r.choice(["never", "auto"])]
+        if r.random() < 0.15:
+            extra.append("--no-progress")
+        args = ["--driver", driver, "-w", str(r.choice([1, 2, 4, 8])), "--block-size", "16KB", "-n", "-r"] + extra + names + ["dst"]
         yield {"spec": spec, "pre": pre, "args": args, "driver": driver, "colls": colls, "pos": posclass if ncoll else "none", "plan": sch, "fs": "ext4"}
 
 
@@ -153,4 +169,5 @@ def run_case(case):
         ck = sorted({("f" if c[1] == "fbig" else c[1], c[2]) for c in case["colls"]})
         res["evals"].append({"key": [case["driver"], ck, case["pos"], case["plan"]["sched"]] if case["colls"] else None,
                              "sample": {"args": case["args"], "collisions": case["colls"], "position": case["pos"], "sched": case["plan"], "exit": run.status}})
+        res["counters"]["opt:" + ("backup" if "--backup" in case["args"] else "plain")] = 1
     return res
